@@ -181,3 +181,19 @@ CHECKS["C12"]["groups"].append({"engine": "mir", "features": ["deadlock-detectio
     m("deadlock_sound", "includes: the caller panics while its ask is in flight, later the callee asks the dead caller", "no stale edge, no spurious deadlock panic in the survivor"),
     m("deadlock_cycles", "after the deliberate panic every participant goes on")]})
 CHECKS["C15"]["groups"][-1]["scenarios"][0]["bounds"] += "; + caller panics mid-ask then reverse ask"
+
+CHECKS["C18"] = {
+    "title": "Optional features never change messaging or lifecycle behaviour", "level": "model_checking",
+    "technique": "differential " + SYMEX + ": behaviour sets of six feature builds compared with the default build",
+    "functions": LIFE_FUNCS + ["every #[cfg(feature = ...)] block in actor.rs / actor_ref.rs / lib.rs (metrics guard + extra clone, task-local scopes, wait-for bookkeeping, dead-letter counter, tracing spans)"],
+    "bounds": "8 small scenarios (tell+ask then drop; two clients + stop; kill; on_run T,F; ask_with_timeout against a slow handler with clock advances; on_run Err; handler panic; on_start Err), capacity 1, every interleaving WITHOUT partial-order reduction, for feature sets {} vs {tracing}, {metrics}, {test-utils}, {deadlock-detection}, {all four}",
+    "outside": "programs with ask cycles (excluded by the property); the real tracing subscriber; the other 10 feature subsets in the quick tier",
+    "assumptions": MIRENV, "trusted_base": MIRTRUST,
+    "explanation": "for each build the set of per-component observable traces (client results in program order, hook sequences with arguments and outcomes, task end states, dead letters) over all explored schedules is computed; each feature build's set must equal the default build's",
+    "groups": [{"engine": "mir", "kind": "featdiff", "scenario": "feature_suite",
+                "feature_sets": [[], ["tracing"], ["metrics"], ["test-utils"], ["deadlock-detection"], ["deadlock-detection", "metrics", "test-utils", "tracing"]]}],
+}
+mircheck("C17", "Blocking API is the async API seen from a thread", SYMEX,
+         [m("blocking", "8 configurations: blocking_tell/blocking_ask without timeout, the deprecated aliases with an (ignored) timeout, the timeout variants against a live actor, an actor that never answers in time, a mailbox that stays full, a killed actor; one calling thread (its whole call is one step while every other task keeps being scheduled, all choices explored) + an async sender / stopper / killer", "same C01/C02/C03/C13 monitors; with a timeout the call returns by the (virtual) deadline and never before it reports Timeout; aliases create no timer; timers carry the caller's duration")],
+         "see scenario", "real OS threads, several concurrent blocking callers, wall-clock bounds, 'callable inside a runtime without panicking' (a property of real tokio's runtime-entering rules): NOT claimed",
+         "the helper-thread closure and its private runtime are interpreted inline (thread::spawn runs the closure at the spawn point; Runtime::block_on drives the future while the scheduler keeps choosing other transitions)")
